@@ -1,2 +1,147 @@
-(* C18 — placeholder while the machinery is being built. *)
-From Verif Require Import Base.Prelude Model.CmdWire Spec.CmdSpec.
+(* C18 — Wire format and function tables are coherent for every function.
+   Property theorems only; proofs are in Proofs/CodecProofs.v and Proofs/CmdProofs.v.
+   Models: Model/CmdTables.v (tag-driven lookups and command builders) and
+   Model/JsonCodec.v (encoding/json at tree level) over the tables the translator
+   regenerates from /repo on every run (Gen/GenTags.v, GenFactory.v, GenJsonTypes.v);
+   machine: Model/CmdWire.v; the property is the monitor Spec/CmdSpec.v, which also
+   judges the implementation's observations (harness/cmd/c18). *)
+From Coq Require Import String List ZArith NArith Bool.
+From Verif Require Import Base.Prelude Model.JsonTy Model.JsonCodec Model.CmdTables Model.CmdWire Spec.CmdSpec.
+From Verif Require Import Gen.GenJsonTypes Gen.GenTags Gen.GenFactory Proofs.CodecProofs Proofs.CmdProofs.
+Import ListNotations.
+Local Open Scope Z_scope.
+
+(* The type table (closure of model.Datagram) is well formed: per struct unique,
+   non-empty JSON names; only supported kinds (no KBad: no map, interface, float,
+   embedded or unexported field, no custom marshaller on a scalar); every struct id
+   resolves; ranks strictly decrease along struct-typed fields (acyclic).  The tag
+   rows are aligned with the CmdType / FilterType rows and every registered pair
+   names an existing function entry with existing types. *)
+Theorem C18_types_wf : wf_tbl GenJsonTypes.structs = true /\ tables_aligned = true.
+Proof. split; [exact types_wf | exact tables_aligned_ok]. Qed.
+Print Assumptions C18_types_wf.
+
+Theorem C18_json_names_unique : forall id, NoDup (map f_json (fields_of GenJsonTypes.structs id)).
+Proof. exact (fields_nodup T types_wf). Qed.
+Print Assumptions C18_json_names_unique.
+
+(* First sentence of the property, over the bound stated here: every registered
+   (feature type, function) pair of GenFactory.registered, each of the nine shapes of
+   the property text and three combinations more (all_shapes), payload / selector /
+   elements values [sample] of depth 0, 1, 2 of the function's types.  The command the
+   builders produce, encoded and decoded, is judged by the monitor: every violated
+   clause is excused, and nothing is excused outside the two recorded classes
+   (C18_recognised_strict). *)
+Theorem C18_recognised_partial : forall ft fn shape depth,
+  In (ft, fn) GenFactory.registered -> In shape all_shapes -> In depth sample_depths ->
+  let o := sample_row ft fn shape depth in
+  excused (snd (mon minit o (snd (step init o)))) (excuses (scope sinit o)) = true.
+Proof. exact row_accepted. Qed.
+Print Assumptions C18_recognised_partial.
+
+Theorem C18_recognised_strict : forall ft fn shape depth,
+  In (ft, fn) GenFactory.registered -> In shape all_shapes -> In depth sample_depths ->
+  in_class fn = false ->
+  let o := sample_row ft fn shape depth in
+  snd (mon minit o (snd (step init o))) = [].
+Proof.
+  intros ft fn shape depth Hr Hs Hd Hc o.
+  pose proof all_rows_strict as H. rewrite forallb_forall in H.
+  assert (Hin : In o (rows_of GenFactory.registered)).
+  { unfold rows_of. apply in_flat_map. exists (ft, fn). split; [exact Hr|].
+    apply in_flat_map. exists shape. split; [exact Hs|].
+    apply in_map_iff. exists depth. split; [reflexivity | exact Hd]. }
+  specialize (H o Hin). unfold row_strict, strict_with, op_verdict in H.
+  subst o. unfold sample_row in *. destruct (fn_at fn) eqn:E;
+    (rewrite Hc in H; cbn [orb] in H;
+     match type of H with (match ?v with [] => _ | _ => _ end) = true => destruct v; [reflexivity | discriminate] end).
+Qed.
+Print Assumptions C18_recognised_strict.
+
+(* the rows are judged on well-typed values with the arguments their shape needs *)
+Theorem C18_rows_not_vacuous : forallb row_typed (rows_of GenFactory.registered) = true.
+Proof. exact rows_well_typed. Qed.
+Print Assumptions C18_rows_not_vacuous.
+
+(* Second sentence: for every type over the table and every well-typed value of
+   any size, decoding the encoding gives the normal form [normt] (an omitted member
+   comes back as the zero value), which is equivalent to the value: [norm] identifies
+   absent and empty lists.  Strings are abstract here: valid UTF-8 is an assumption
+   on the values (Go replaces invalid bytes when it writes the text). *)
+Theorem C18_roundtrip : forall t v, has_type GenJsonTypes.structs t v = true ->
+  dec GenJsonTypes.structs t (enc GenJsonTypes.structs t v) = Some (normt GenJsonTypes.structs t v) /\
+  norm (normt GenJsonTypes.structs t v) = norm v.
+Proof.
+  intros t v H. split; [exact (roundtrip T types_wf v t H) | exact (norm_normt T v t H)].
+Qed.
+Print Assumptions C18_roundtrip.
+
+(* The clause on TimePeriodType, over an abstract clock (integers in nanoseconds):
+   marshal then unmarshal at clock reading [now] leaves a period with a start time
+   unchanged, returns an absolute end at most one second away, and re-expresses a
+   relative end as now + duration to the second.  The text formats of times and
+   durations are C19's. *)
+Theorem C18_timeperiod : forall now p,
+  let q := tp_unmarshal now (tp_marshal now p) in
+  p_start q = p_start p /\
+  match p_start p, p_end p with
+  | None, Some (EAbs t) => exists t', p_end q = Some (EAbs t') /\ Z.abs (t' - t) <= second
+  | None, Some (ERel d) => exists t', p_end q = Some (EAbs t') /\ Z.abs (t' - (now + d)) <= second / 2
+  | _, _ => q = p
+  end.
+Proof. exact timeperiod_roundtrip. Qed.
+Print Assumptions C18_timeperiod.
+
+(* Every history of operations within the bounds (rows over the sample values, Codec
+   with any value, Decode with any JSON tree): each step of the model's trace
+   satisfies every clause of the monitor that the scope predicate does not excuse. *)
+Theorem C18_trace_accepted_partial : forall ops, Forall in_bounds ops ->
+  accepted (judge minit sinit (snd (run init ops))) = true.
+Proof. exact run_accepted. Qed.
+Print Assumptions C18_trace_accepted_partial.
+
+(* The full statement (nothing excused) is false of the faithful model: elements
+   given for electricalConnectionCharacteristicData do not arrive, because the one
+   fct tag of ElectricalConnectionCharacteristicDataElements names the list function. *)
+Theorem C18_full_refuted : exists ops, Forall in_bounds ops /\
+  strictly_accepted (judge minit sinit (snd (run init ops))) = false.
+Proof.
+  exists shared_elements_witness. split; [|exact full_refuted].
+  repeat constructor. exists 1%N. split; [cbn; tauto | reflexivity].
+Qed.
+Print Assumptions C18_full_refuted.
+
+(* The defects of the pinned tree, replayed in the model on the pinned spellings
+   (delete argument handed on by address; the five tag strings): which clause each
+   one violates.  The first six are repaired by patches/fix-C18-*.diff, the last is
+   the recorded finding setpoint-description-elements-tag. *)
+Theorem C18_pinned_defects_refuted :
+  pinned_verdict true (row_by_name "Measurement" "measurementListData" 7 1) = [C_BUILDS] /\
+  pinned_verdict true (row_by_name "Measurement" "measurementListData" 8 1) = [C_BUILDS] /\
+  pinned_verdict false (row_by_name "NetworkManagement" "networkManagementFeatureDescriptionListData" 1 1) = [C_PSEL] /\
+  pinned_verdict false (row_by_name "Generic" "sessionIdentificationListData" 2 1) = [C_PEL] /\
+  pinned_verdict false (row_by_name "Generic" "sessionMeasurementRelationListData" 8 1) = [C_DEL] /\
+  pinned_verdict false (row_by_name "Measurement" "measurementSeriesListData" 6 1) = [C_PSEL] /\
+  pinned_verdict false (row_by_name "Setpoint" "setpointDescriptionListData" 2 1) = [C_SETPOINT_TAG].
+Proof. exact pinned_defects. Qed.
+Print Assumptions C18_pinned_defects_refuted.
+
+(* Non-vacuity: a read with selector for alarmListData as the model sees it after
+   the wire — the JSON tree, the recognised function with its payload type, the
+   partial filter with the selector, no delete filter — accepted strictly. *)
+Example C18_nonvacuous :
+  let o := row_by_name "Alarm" "alarmListData" 1 1 in
+  match snd (step init o) with
+  | [OJson j; OData fn 6 _ (VStruct [VNil]);
+     OFilter 0 true fn' _ (-1) (VStruct [VInt 7; VStr "s"]) VNil;
+     OFilter 1 false (-1) (-1) (-1) VNil VNil] =>
+      json_eqb j (JObj [("function", JStr "");
+                        ("filter", JArr [JObj [("cmdControl", JObj [("partial", JObj [])]);
+                                               ("alarmListDataSelectors",
+                                                JObj [("alarmId", JNum 7); ("scopeType", JStr "s")])]]);
+                        ("alarmListData", JObj [])]%string) &&
+      Z.eqb fn fn' && Z.eqb fn (fn_index "alarmListData")
+  | _ => false
+  end = true /\
+  snd (mon minit o (snd (step init o))) = [].
+Proof. split; vm_compute; reflexivity. Qed.
